@@ -29,7 +29,8 @@ where
 impl<V> Node<V> {
     /// Insert a new item into this node
     pub fn insert(mut self, regex: &str, id: String, item: V) -> Item<V> {
-        let mut max_prefix_size = self.regex.original.len() as u32;
+        // sizes of prefixes are counted in characters, like common_prefix_char_size does
+        let mut max_prefix_size = self.regex.original.chars().count() as u32;
         let prefix_size = common_prefix_char_size(regex, self.regex.original.as_str());
 
         if prefix_size < max_prefix_size {
@@ -46,6 +47,14 @@ impl<V> Node<V> {
         let mut max_prefix_item = None;
 
         for i in 0..self.children.len() {
+            // a child holding exactly this pattern takes the value (it replaces the one stored under the
+            // same id), even when the pattern is not longer than the prefix of this node
+            if self.children[i].regex() == regex {
+                max_prefix_item = Some(i);
+
+                break;
+            }
+
             let prefix_size = common_prefix_char_size(regex, self.children[i].regex());
 
             if prefix_size > max_prefix_size {
